@@ -30,7 +30,10 @@ class C28(Spec):
                   "and as corpus replay (now ErrSign). Tie: generated submission histories (duplicates in one block / later "
                   "block / after reorganisation, TxHeight inside and outside small windows, expired, low-fee, wrong chain id, "
                   "unpayable, mis-signed with and without the hash in the pool) offered as peer blocks and to the node's own "
-                  "block production (ExecBlock with errReturn=false on the tip); results, surviving transactions, chain, "
+                  "block production (ExecBlock with errReturn=false on the tip), with none / some / ALL of a block's "
+                  "transactions in the receiving node's mempool, and across node RESTARTS on the same data directory "
+                  "(InitCache rebuild of the TxHeight window cache; quick: one history with 140 blocks between packing and "
+                  "restart plus restarts inside short small-window histories, thorough: gaps 125..160); results, surviving transactions, chain, "
                   "bodies, tx index, pool membership compared with the Lean driver; the best chain of the implementation "
                   "scanned for the property predicate.")
     level_note = ("transaction attributes (signature valid, fee/chain ok, expiry class, hash class) are oracle inputs "
@@ -41,6 +44,8 @@ class C28(Spec):
     assumptions = (
         "same model and assumptions as C27 (chain control flow), execution verdict = Model/C27.lean preExec over oracle inputs",
         "mempool block events (EventAddBlock/EventDelBlock) take effect before the next block is executed",
+        "restart: index and best-chain view are rebuilt from the whole main chain (chains shorter than InitBlockNum=10240); "
+        "deep forks after a restart are not tied",
         "no transaction groups / para-chain transactions; ForkCheckTxDup, ForkTxHeight, ForkTxChainIDStrict active (local test chain)",
     )
 
